@@ -44,15 +44,20 @@ public:
     invariant_(imdd.invariant_),
     p_(imdd.p_),
     nestedPrefix_(imdd.nestedPrefix_)
-  {}
+  {
+    shareNestedConstraints_(*imdd.dist_, *dist_);
+  }
 
   InvariantMixedDiscreteDistribution& operator=(const InvariantMixedDiscreteDistribution& imdd)
   {
+    if (this == &imdd)
+      return *this;
     AbstractDiscreteDistribution::operator=(imdd);
     dist_.reset(imdd.dist_->clone());
     invariant_    = imdd.invariant_;
     p_            = imdd.p_;
     nestedPrefix_ = imdd.nestedPrefix_;
+    shareNestedConstraints_(*imdd.dist_, *dist_);
     return *this;
   }
 
